@@ -4,7 +4,7 @@
    All statements: any libbz2-conforming decoder and buffer size, any well-formed field table
    on a tree with the six read-path repairs, any reachable handle state (InvH). *)
 From Coq Require Import ZArith List Bool.
-From GD Require Import C02.Model C02.CodecProofs C02.HistoryProofs C02.Handle C02.Refutations C17.IoPos C17.Pointers.
+From GD Require Import C02.Model C02.CodecProofs C02.HistoryProofs C02.Handle C02.Refutations C02.Writes C17.IoPos C17.Pointers.
 Import ListNotations.
 Local Open Scope Z_scope.
 
@@ -31,6 +31,14 @@ Theorem tell_after_transfer :
   forall s k n, InvH d s -> 0 <= k <= 2 ^ 61 -> 0 <= n <= 2 ^ 61 -> spec_window d f k n <> [] ->
     snd (step dec d (fst (step dec d s (CGet f (Some k) n))) (CTell f)) = RPos (k + len (spec_window d f k n)).
 Proof. exact tell_after_get_raw. Qed.
+
+(* after a successful gd_putdata that transferred n samples starting at k, gd_tell reports k+n
+   (RAW field of the in-place encoding; put_raw of coq/C02/Writes.v) *)
+Theorem tell_after_put :
+  forall dec d s r k bs d' s' f, wf_db d -> InvH d s -> put_raw d s r k bs = Some (d', s') ->
+    nth_error (d_fields d) f = Some (FRaw r) ->
+    snd (step dec d' s' (CTell f)) = RPos (k + len bs / rd_size (get_rd d r)).
+Proof. exact put_pointer. Qed.
 
 (* gd_seek to a position between the beginning- and the end-of-field establishes and returns
    exactly that position: GD_SEEK_SET, GD_SEEK_END (= gd_eof), GD_SEEK_CUR *)
